@@ -1,6 +1,6 @@
 """ C04 probe: start requests of concurrent application jobs ignore each other's pending requests. """
 import sys
-sys.path.insert(0, __import__('os').path.dirname(__import__('os').path.abspath(__file__)))
+sys.path.insert(0, __import__('os').path.join(__import__('os').path.dirname(__import__('os').path.abspath(__file__)), '..', 'round0_spikes'))
 import corr_cmd
 from corr_cmd import Case, T, UNIT
 from supvisors.ttypes import *
